@@ -237,7 +237,7 @@ def dispatch(eng: Engine, ctx: Ctx, rid: str) -> int:
                 return ("const", ident)
             return None
 
-        se = SymEval(eng.ce, sel, override=ov).run()
+        se = eng.symeval(sel.qualname, override=ov)
         rets = [e for e in se.effects if e.kind == "return"]
         ok = len(rets) == 1 and rets[0].term[0] == "gval" and rets[0].term[1].v is d and not rets[0].guards
         if not ok:
@@ -249,7 +249,7 @@ def dispatch(eng: Engine, ctx: Ctx, rid: str) -> int:
     if not bad:
         ctx.ok(rid, sel.qualname, "every table key reaches its own definition", found=f"{n} identities folded", **eng.loc(sel, sel.node))
     # symbolic identity: lookups never raise
-    se = SymEval(eng.ce, sel).run()
+    se = eng.symeval(sel.qualname)
     tabs = {id(t): name for name, t in T.tables.items()}
     for e in se.effects:
         if e.kind != "return":
